@@ -253,6 +253,8 @@ Proof.
   intros Hl Hi. inv Hl; try (simpl; constructor; fail).
   inv Hi; simpl; try constructor.
   destruct (z <? 0); [constructor|].
+  rewrite <- (Forall2_length' _ _ _ H).
+  destruct (Z.of_nat (length l1) <=? z); [constructor|].
   destruct (nth_error l1 (Z.to_nat z)) eqn:E1.
   - destruct (Forall2_nth _ _ _ _ _ H E1) as (w & -> & Hw). constructor; auto.
   - assert (E2 : nth_error l2 (Z.to_nat z) = None).
